@@ -128,6 +128,11 @@ def base_doc(odml, variant):
         return doc
     import random
     rng = random.Random(variant)
+    if variant % 7 == 3:
+        # a document with many issues that are only warnings (Sections of the default type),
+        # all of them ahead of whatever is planted below
+        for i in range(rng.choice([26, 40, 101])):
+            odml.Section(name="w%d" % i, parent=doc)
     conts = [(doc, 0)]
     for i in range(rng.randint(2, 9)):
         par, depth = rng.choice([c for c in conts if c[1] < 4]) if i >= 2 else conts[0]
